@@ -45,8 +45,12 @@ Proof.
              false bProduct
              (objt bQuery [fdef bproduct (TNamed bProduct)]) (fdef bproduct (TNamed bProduct))
              bProduct [bid] [fld bname []] [fld bprice []] [fld bname []] [fld bprice []] 5 6 6) with (fM := 12%nat);
-    try (vm_compute; reflexivity); try (vm_compute; lia).
-  - left. reflexivity.
+    match goal with
+    | |- forall _, _ => idtac
+    | |- (_ <= _)%nat => vm_compute; lia
+    | |- In _ _ => left; reflexivity
+    | _ => vm_compute; reflexivity
+    end.
   - intros r m Hm. unfold vars2_of, effective_vars. cbn. unfold not_repr in Hm. apply negb_true_iff in Hm. rewrite Hm. reflexivity.
   - intros e He _. vm_compute in He. injection He as <-. repeat split; vm_compute; reflexivity.
 Qed.
